@@ -12,6 +12,9 @@ from edgegraph.structure import (
 )
 
 
+Vertex = Vertex  # re-exported for eglib.graphs
+
+
 class SubVertex(Vertex):
     pass
 
@@ -90,7 +93,15 @@ class SubOdd(OddLink):
     pass
 
 
-LINK_CLASSES = [DirectedEdge, UnDirectedEdge, SubDirected, SubUndirected, OddLink, SubOdd, MixedDirected]
+class OddDirected(OddLink, DirectedEdge):
+    """Direction-less user base class first, DirectedEdge second: it IS a directed edge."""
+
+
+# a DIFFERENT class with the same module and qualified name as SubDirected, but of another kind (a class statement
+# executed again with another base, as happens with factories / reloaded plugins)
+SubDirectedTwin = type("SubDirected", (UnDirectedEdge,), {"__module__": __name__, "__qualname__": "SubDirected"})
+
+LINK_CLASSES = [DirectedEdge, UnDirectedEdge, SubDirected, SubUndirected, OddLink, SubOdd, MixedDirected, OddDirected, SubDirectedTwin]
 LINK_NAMES = [c.__name__ for c in LINK_CLASSES]
 KIND = {
     DirectedEdge: "D",
@@ -100,6 +111,8 @@ KIND = {
     OddLink: "X",
     SubOdd: "X",
     MixedDirected: "D",
+    OddDirected: "D",
+    SubDirectedTwin: "U",
 }
 VERTEX_CLASSES = [Vertex, SubVertex, FalsyVertex, EmptyLenVertex, MixedVertex, SubVertexTwin]
 
